@@ -54,6 +54,30 @@ func c03Ops(rank int, full bool) []c03op {
 		ops = append(ops, c03op{Name: "T", P: p})
 	}
 	ops = append(ops, c03op{Name: "UT"}, c03op{Name: "Transpose"}, c03op{Name: "Materialize"})
+	// axes that are no permutation of the dimensions: a repeated axis, an axis out of range, a negative one, too many
+	if rank >= 1 {
+		rep := make([]int, rank)
+		high := make([]int, rank)
+		neg := make([]int, rank)
+		for i := range high {
+			high[i], neg[i] = i, i
+		}
+		high[0], neg[rank-1] = rank, -1
+		long := append(ref.Reversal(rank), rank)
+		for _, bad := range [][]int{rep, high, neg, long} {
+			ops = append(ops, c03op{Name: "T", P: bad})
+			if full {
+				ops = append(ops, c03op{Name: "SafeT", P: bad})
+			}
+		}
+		if rank >= 2 {
+			last := make([]int, rank)
+			for i := range last {
+				last[i] = rank - 1
+			}
+			ops = append(ops, c03op{Name: "T", P: last})
+		}
+	}
 	if full {
 		ops = append(ops, c03op{Name: "SafeT"}, c03op{Name: "pkgT"}, c03op{Name: "pkgTranspose"})
 		for _, p := range perms {
@@ -253,6 +277,16 @@ func c03Step(d ref.DT, st *c03state, op c03op) (*c03state, string, string) {
 			ns.pend = &prev // SafeT returns a lazily transposed copy
 		}
 	case "RollAxis":
+		if noop && op.Safe {
+			// nothing to roll: the copying form still hands out a tensor of its own (like SafeT with the identity axes), the
+			// same array as the receiver
+			if res == st.t {
+				return nil, "retval-identity", fmt.Sprintf("%s (safe) returned the receiver itself instead of a copy", op)
+			}
+			pure = true
+			ns = &c03state{t: res, L: st.L, owns: true}
+			break
+		}
 		if noop {
 			if res != st.t {
 				return nil, "retval-identity", fmt.Sprintf("%s is a no-op and must return the receiver", op)
